@@ -762,12 +762,18 @@ EXPORT errno_t _wcsnorm_reorder_s_chk(wchar_t *restrict dest, rsize_t dmax,
     wchar_t *orig_dest = dest;
     rsize_t orig_dmax = dmax;
 
+    CHK_DEST_NULL("wcsnorm_reorder_s")
+    CHK_DMAX_ZERO("wcsnorm_reorder_s")
     if (destbos == BOS_UNKNOWN) {
         CHK_DMAX_MAX("wcsnorm_reorder_s", RSIZE_MAX_WSTR)
         BND_CHK_PTR_BOUNDS(dest, dmax * sizeof(wchar_t));
     } else {
         const size_t destsz = dmax * sizeof(wchar_t);
         CHK_DESTW_OVR_CLEAR("wcsnorm_reorder_s", destsz, destbos)
+    }
+    if (unlikely(src == NULL)) {
+        handle_werror(dest, dmax, "wcsnorm_reorder_s: src is null", ESNULLP);
+        return RCNEGATE(ESNULLP);
     }
 
     while (p < e) {
